@@ -80,6 +80,21 @@ Section Deadline.
                 give_up k (throttle_of (nth k outs OFinal)) = Some e.
 End Deadline.
 
+(** Accumulated time.  When the clock is consistent with the waits (it never runs backwards and each wait
+    really takes at least its length), the limit bounds the SUM of all earlier waits plus the throttle about
+    to be honoured, not just a single wait: a loop that restarted its accounting after a throttled wait
+    would violate this. *)
+Definition sumz (l : list Z) : Z := fold_right Z.add 0 l.
+
+Definition Clock_advances (elapsed1 elapsed2 backoff : nat -> Z) (outs : list outcome) : Prop :=
+  0 <= elapsed1 0%nat /\
+  forall k, elapsed1 k <= elapsed2 k /\
+            elapsed2 k + Z.max (throttle_of (nth k outs OFinal)) (backoff k) <= elapsed1 (S k).
+
+Definition Waits_within_limit (max : Z) (outs : list outcome) (o : run_out) : Prop :=
+  forall i, (i < length (waits o))%nat ->
+            sumz (firstn i (waits o)) + throttle_of (nth i outs OFinal) <= max.
+
 Definition Partial_success_delivered (outs : list outcome) (o : run_out) : Prop :=
   (forall i, (i < attempts o)%nat -> nth i outs OFinal = OSuccess true -> res o = ROk /\ handled o = 1%nat) /\
   (handled o <= 1)%nat /\
@@ -147,3 +162,22 @@ Definition run_ok (enabled : bool) (max : Z) (cancel_at : option nat) (script : 
      | None => true
      end
    else true).
+
+(** Throttled sequences whose delays add up beyond the limit (each delay below it), then a collector that
+    never recovers: the export must fail with a max-retry-time error, after at most ceil(max/min delay)+2
+    attempts, within max + 3 s of wall clock; every gap is at least the delay asked for (in the unit the
+    client reads), and the payload is the same on every attempt. *)
+Fixpoint gaps_ge (delays gaps : list Z) : bool :=
+  match delays, gaps with
+  | d :: ds, g :: gs => (d <=? g) && gaps_ge ds gs
+  | _, _ => true
+  end.
+
+Definition throttled_ok (max_ns min_delay_ns : Z) (delays : list Z)
+                        (attempts : nat) (bodies : list N) (gaps : list Z) (err : N) (elapsed_ns : Z) : bool :=
+  (1 <=? attempts)%nat && (err =? 2)%N &&
+  (0 <? min_delay_ns) &&
+  (Z.of_nat attempts <=? (max_ns + min_delay_ns - 1) / min_delay_ns + 2) &&
+  (elapsed_ns <=? max_ns + 3 * NS_PER_S) &&
+  Nat.eqb (length bodies) attempts && all_eq_nonzero bodies &&
+  Nat.eqb (length gaps) (pred attempts) && gaps_ge delays gaps.
